@@ -77,7 +77,27 @@ def _fix_programs(tier: str):
         yield {"fix": True, "active": active, "limit": limit, "expiration": expiration, "keys": keys, "variant": variant.split("-")[0], "outcome": "exc" if variant.endswith("exc") else "value", "validate": "first" if tier == "quick" else "all", "deadline_s": 6000, "max_states": 200000}
 
 
+def _forms_and_scales(tier: str):
+    # the keyword call form (all callers, or every second one next to positional callers - which
+    # may or may not share an entry with them: each form on its own must be single-flight), and
+    # FINE / huge time scales: expirations of 1/2048 s, 3/1024 s and 2**20 s
+    for keys in ("aa", "aaa", "aba", "aaaa"):
+        for limit in (1, 2):
+            if limit == 2 and "b" not in keys:
+                continue
+            for cancels in (0, 1):
+                if cancels and len(keys) == 4:
+                    continue
+                for variant in ("function", "method"):
+                    yield {"keys": keys, "limit": limit, "expiration": None, "outcome": "value", "cancels": cancels, "batch": 1, "variant": variant, "kw": "all"}
+    for keys in ("aa", "aaa", "aba"):
+        for expiration in (1 / 2048, 3 / 1024, float(2**20)):
+            for cancels in (0, 1):
+                yield {"keys": keys, "limit": 1 if "b" not in keys else 2, "expiration": expiration, "outcome": "value", "cancels": cancels, "batch": 1, "variant": "function"}
+
+
 def programs(tier: str):
+    yield from _forms_and_scales(tier)
     yield from _fix_programs(tier)
     yield from _many_waiters(tier)
     yield from _five(tier)
@@ -529,7 +549,10 @@ def execute(program, ch: Chooser) -> Result:  # noqa: C901, PLR0912, PLR0915
                 call_ = fn
             km = program.get("keymap")
             try:
-                results[i] = ("value", await call_(km[keys[i]] if km else keys[i]))
+                if program.get("kw") and (program["kw"] == "all" or i % 2 == 1):
+                    results[i] = ("value", await call_(key=km[keys[i]] if km else keys[i]))  # keyword call form
+                else:
+                    results[i] = ("value", await call_(km[keys[i]] if km else keys[i]))
             except asyncio.CancelledError:
                 results[i] = ("cancelled",)
                 raise
@@ -540,7 +563,7 @@ def execute(program, ch: Chooser) -> Result:  # noqa: C901, PLR0912, PLR0915
         # two small advances (1.25 each, expiration 2): entries created at different instants
         # can expire at different instants; never exactly on the boundary
         adv = {"left": (2 if (len(keys) <= 3 or program.get("instant") or program.get("adv2")) and program["cancels"] <= 1 and program["batch"] == 1 else 1) if expiration is not None else 0}
-        step = 1.25 if adv["left"] == 2 else 3.0
+        step = (1.25 if adv["left"] == 2 else 3.0) * ((expiration / 2) if expiration else 1.0)
 
         def extra():
             acts = []
